@@ -4,6 +4,8 @@ use vharness::*;
 fn subs_of(id: &str) -> Option<Vec<Sub>> {
     Some(match id {
         "C05" => checks::c05::SUBS.to_vec(),
+        "C18" => checks::c18::SUBS.to_vec(),
+        "C07" => checks::c07::SUBS.to_vec(),
         "C20" => checks::c20::SUBS.to_vec(),
         "C10" => checks::c10::SUBS.to_vec(),
         "C17" => checks::c17::SUBS.to_vec(),
@@ -35,6 +37,11 @@ fn main() {
     let cmd = args[1].as_str();
     if cmd == "snapshot" {
         let v = golden::snapshot(16);
+        println!("{}", serde_json::to_string_pretty(&v).unwrap());
+        return;
+    }
+    if cmd == "snapshot-lift" {
+        let v = checks::c18::snapshot_subset();
         println!("{}", serde_json::to_string_pretty(&v).unwrap());
         return;
     }
@@ -146,6 +153,14 @@ fn main() {
         "C20" => {
             checks::c20::run(&ctx);
             checks::c20::finish(&ctx)
+        }
+        "C07" => {
+            checks::c07::run(&ctx);
+            checks::c07::finish(&ctx)
+        }
+        "C18" => {
+            checks::c18::run(&ctx);
+            checks::c18::finish(&ctx)
         }
         _ => 2,
     };
